@@ -288,11 +288,15 @@ Definition conn_begin (c : conn) (now : time) : conn :=
 (* VirtualTable.Commit / Rollback *)
 Definition conn_end (c : conn) : conn :=
   if c_txfixed c then {| c_deadline := c_deadline c; c_wt := None; c_txfixed := false |} else c.
-(* UPDATE s3db_conn SET ...: None = column not assigned (no change); Some None = cleared *)
+(* UPDATE s3db_conn SET ...: None = column not assigned (no change); Some None = cleared.
+   An attribute that is not assigned is left untouched, and the automatic transaction time
+   stays automatic unless write_time itself is assigned (fix: "changing one s3db_conn
+   attribute must not rewrite the other"; before it any update truncated the write time to
+   whole seconds and made it permanent). *)
 Definition conn_update (c : conn) (dl wt : option (option time)) : conn :=
   {| c_deadline := match dl with Some d => d | None => c_deadline c end;
      c_wt := match wt with Some w => w | None => c_wt c end;
-     c_txfixed := false |}.
+     c_txfixed := match wt with Some _ => false | None => c_txfixed c end |}.
 (* the write time a statement gets: the context's write time, else time.Now() *)
 Definition stmt_time (c : conn) (now : time) : time :=
   match c_wt c with Some t => t | None => now end.
